@@ -194,6 +194,9 @@ def _records(n):
         self = args["self"]
         self.fields["_get_record_list"] = SStub(lambda it2, a, k: SList(recs), "_get_record_list")
         self.fields["schemes"] = tuple(f"s{i}" for i in range(n))
+        # the category's default record may be ANY configured one; the instance "the last one" is enough to expose code
+        # that consults the default before walking the list in order (unused on the current source)
+        self.fields["get_record"] = SStub(lambda it2, a, k: recs[-1], "get_record(None, category)", trusted="instance: the default scheme is the last configured one")
         return {f"record{i}": r for i, r in enumerate(recs)} | {f"identify_{i}": SBool(z3.Bool(f"identify_{i}")) for i in range(n)}
 
     return setup
